@@ -52,6 +52,7 @@ impl Scenario {
                 Shape::Diamond(..) => "diamond".into(),
                 Shape::Merge(_) => "merge".into(),
                 Shape::Packets(_) | Shape::PacketsTail(..) => "packets".into(),
+                Shape::ToFile => "filesink".into(),
                 Shape::VecPackets(_) => "vecpackets".into(),
             },
             Scenario::Run(p) => format!("{}-{}", p.kind, p.runner),
@@ -491,6 +492,26 @@ fn c04_scenarios(_thorough: bool) -> Vec<Scenario> {
             }
         }
     }
+    // Requests larger than the stream can ever hold (capacity 2): only the
+    // peer's departure can end such a wait.
+    for kind in ["reader", "reader-eof"] {
+        for (j, backlog) in [(0usize, 0usize), (1, 0), (2, 0), (0, 1), (1, 1)] {
+            v.push(Scenario::Eos(EosParams {
+                kind: kind.into(),
+                j,
+                need: 3,
+                backlog,
+            }));
+        }
+    }
+    for j in 0..=2 {
+        v.push(Scenario::Eos(EosParams {
+            kind: "writer".into(),
+            j,
+            need: 3,
+            backlog: 0,
+        }));
+    }
     for j in 0..=2 {
         for need in 1..=2 {
             v.push(Scenario::Eos(EosParams {
@@ -528,8 +549,32 @@ fn c04_scenarios(_thorough: bool) -> Vec<Scenario> {
     v
 }
 
+/// C17 under threads: a source thread commits while the file sink's thread is
+/// inside work(). Whatever the sink consumed has to be in the file.
+fn c17_scenarios(thorough: bool) -> Vec<Scenario> {
+    let mut v = Vec::new();
+    for (per_page, len) in [(1usize, 3usize), (2, 3), (2, 5), (4, 9)] {
+        for order in [vec![0usize, 1], vec![1, 0]] {
+            v.push(Scenario::MtResult(
+                GraphSpec {
+                    shape: Shape::ToFile,
+                    per_page,
+                    pages: 1,
+                    src_len: len,
+                    order,
+                    file_repeat: 0,
+                    vec_repeat: 0,
+                },
+                if thorough { 3 } else { 2 },
+            ));
+        }
+    }
+    v
+}
+
 fn scenarios(prop: &str, thorough: bool) -> Vec<Scenario> {
     match prop {
+        "C17" | "C14" => c17_scenarios(thorough),
         "C02" => c02_scenarios(thorough),
         "C03" => c03_scenarios(thorough),
         "C04" => c04_scenarios(thorough),
@@ -577,6 +622,7 @@ static CTX: std::sync::Mutex<Option<Ctx>> = std::sync::Mutex::new(None);
 
 fn install_fatal_handler() {
     *dfs::ON_FATAL.lock().unwrap() = Some(Box::new(|kind, msg, choices| {
+        let _ = std::fs::remove_file(vcommon::graphs::tofile_path());
         let mut g = CTX.lock().unwrap_or_else(|e| e.into_inner());
         let ctx = g.as_mut().expect("fatal outside exploration");
         if ctx.replay_mode {
@@ -721,5 +767,6 @@ fn main() {
     }
     rep.set("scenarios", json!(completed));
     rep.set("max_deviation_bound", json!(dmax));
+    let _ = std::fs::remove_file(vcommon::graphs::tofile_path());
     rep.emit();
 }
